@@ -67,9 +67,23 @@ def check_latency(ctx, v, params, kind, origin):
         except StopIteration:
             stale = None
         ctx.count("cases_with_a_stale_generator_finalised_mid_run")
+    pre = None
+    if shared is not None and stale is None and (len(v) + params[0]) % 4 == 1:
+        # the generator-mode run is requested first, the other modes run to completion, and only then is it consumed
+        frames_g, _ = tok.FRAME_KINDS[kind](v)
+        src_g = tok.CountingSource(frames_g)
+        pre = (shared.tokenize(src_g, generator=True), src_g)
+        order = ("callback", "list", "generator")
+        ctx.count("cases_generator_requested_before_the_other_modes_ran")
     for delivery in order:
         try:
-            if stale is not None and delivery in ("generator", "callback"):
+            if pre is not None and delivery == "generator":
+                g_, src = pre
+                tokens, at = [], []
+                for t in g_:
+                    tokens.append(tuple(t))
+                    at.append(src.reads)
+            elif stale is not None and delivery in ("generator", "callback"):
                 frames_, _ = tok.FRAME_KINDS[kind](v)
                 src = tok.CountingSource(frames_)
                 at, tokens = [], []
@@ -369,6 +383,34 @@ def check_split_lazy_by_validator(ctx, case, tmpdir, rng):
         ctx.violation("exception:" + type(exc).__name__, {"case": AC.case_json(case), "input": kind, "exception": repr(exc)[:300]})
 
 
+def check_split_lazy_microphone(ctx, case):
+    """input=None (the PyAudio path) through a stand-in device that counts the samples pulled from it."""
+    from .. import fakepyaudio
+
+    built = AC.build_audio(case)
+    if built is None:
+        return
+    data, verdicts = built
+    bps = case["width"] * case["channels"]
+    try:
+        with fakepyaudio.installed(data) as dev:
+            n = 0
+            for r in auditok.split(None, **AC.split_kwargs(case), **AC.audio_kwargs(case)):
+                s_ = round(r.start * case["rate"])
+                ns = len(bytes(r)) // bps
+                last_window = (s_ + ns - 1) // case["block"]
+                bound = (last_window + case["max_sil"] + 2) * case["block"]
+                ctx.count("regions_timed_microphone")
+                n += 1
+                if dev["pulled_samples"] > bound:
+                    ctx.violation("split-read-ahead-beyond-latency-bound", {"case": AC.case_json(case), "source": "microphone(stand-in)", "region": [s_, ns],
+                                                                           "samples_pulled_from_device": dev["pulled_samples"], "bound": bound})
+                    return
+            ctx.case(("split-mic", data, repr(sorted(AC.case_json(case).items()))), n > 0)
+    except Exception as exc:
+        ctx.violation("exception:" + type(exc).__name__, {"case": AC.case_json(case), "source": "microphone(stand-in)", "exception": repr(exc)[:300]})
+
+
 def check_limited_source_not_overread(ctx, case, rng):
     """max_read: the source underneath is never asked for more than the first round(max_read*rate) samples."""
     built = AC.build_audio(case)
@@ -428,6 +470,7 @@ def run_shard(ctx):
             check_split_lazy_overlap(ctx, AC.random_split_case(rng, max_windows=40, allow_partial=False), rng)
             check_split_lazy_by_validator(ctx, AC.random_split_case(rng, max_windows=50), tmpdir, rng)
             check_limited_source_not_overread(ctx, AC.random_split_case(rng, max_windows=40), rng)
+            check_split_lazy_microphone(ctx, AC.random_split_case(rng, max_windows=40))
             if ctx.out_of_time():
                 break
     finally:
@@ -457,4 +500,4 @@ def inconclusive(merged, tier):
     return [f"monitor never observed {k}" for k in
             ("deliveries_timed", "full_length_tokens_timed", "tokens_delivered_at_end_of_stream", "prefix_runs",
              "prefix_flush_tokens", "prefix_flush_tokens_strictly_shorter", "regions_timed_buffer", "regions_timed_raw",
-             "regions_timed_wav", "regions_timed_stdin", "cases_long", "regions_timed_overlap_reader", "cases_one_tokenizer_for_all_modes", "cases_with_a_stale_generator_finalised_mid_run", "regions_timed_at_validator_raw_path", "regions_timed_at_validator_wav_path_lazy", "limited_sources_checked") if c.get(k, 0) == 0]
+             "regions_timed_wav", "regions_timed_stdin", "cases_long", "regions_timed_overlap_reader", "cases_one_tokenizer_for_all_modes", "cases_with_a_stale_generator_finalised_mid_run", "cases_generator_requested_before_the_other_modes_ran", "regions_timed_at_validator_raw_path", "regions_timed_at_validator_wav_path_lazy", "limited_sources_checked", "regions_timed_microphone") if c.get(k, 0) == 0]
